@@ -1,7 +1,10 @@
 use crate::bin_archive::BinArchive;
 use crate::bin_streams::BinArchiveReader;
 use crate::{ArcError, Endian};
+#[cfg(not(mila_verif))]
 use std::collections::HashMap;
+#[cfg(mila_verif)]
+use crate::verif_support::HashMap;
 
 type Result<T> = std::result::Result<T, ArcError>;
 
